@@ -23,6 +23,9 @@ pub fn on_reclaim_decision(sh: &mut Shadow, block: usize, depth: usize, curr_epo
     let oldest_age = curr_epoch.saturating_sub(oldest);
     // every stamp that took part is real and lies in the window the 4-bit comparison resolves
     let in_window = !ob.stamp_tainted && curr_epoch >= stamp && age >= 3 && oldest_age <= 13;
+    if crate::shadow::evdebug() {
+        eprintln!("C12 decision #{} depth {} now={} curr={} stamp={:?} min={:?} tainted={} in_window={}", o, depth, now, curr_epoch, ob.stamp_full, ob.stamp_min, ob.stamp_tainted, in_window);
+    }
     if now {
         sh.c12_checked += 1;
         // true age: against the clock itself, not the value the cascade says it compared with
@@ -47,6 +50,8 @@ pub fn on_reclaim_decision(sh: &mut Shadow, block: usize, depth: usize, curr_epo
             "child #{} re-deferred at epoch {} although all its stamps are old and unambiguous (youngest written at epoch {}, oldest at {}; 4-bit stamp in its count word: {})",
             o, curr_epoch, stamp, oldest, crate::shadow::read_state(ob.state_addr) >> 60
         );
-        sh.soft("C12", "deferred-although-old", det);
+        // (a child that is not reclaimed in the same pass although nothing speaks against it
+        // costs a grace period: the mechanism C06 rests on)
+        sh.soft("C12,C06", "deferred-although-old", det);
     }
 }
